@@ -900,6 +900,16 @@ def arg_reduction(
                 "  x.compute_chunk_sizes()"
             )
 
+    # Blocks that are empty along a reduced axis have no arg-extremum: drop
+    # zero-size chunks along those axes (unless the whole axis is empty)
+    without_empty = {
+        ax: tuple(c for c in x.chunks[ax] if c != 0)
+        for ax in axis
+        if 0 in x.chunks[ax] and x.shape[ax] > 0
+    }
+    if without_empty:
+        x = x.rechunk(without_empty)
+
     # Map chunk across all blocks
     name = f"arg-reduce-{tokenize(axis, x, chunk, combine, split_every)}"
     old = x.name
